@@ -311,6 +311,10 @@ func generate(r *vh.Rand, steps int) (string, []string) {
 			g.startPending()
 		case x < 94:
 			v := sortedIDs(n.Mem.Voters)
+			if r.Chance(1, 4) {
+				// a transfer aimed at a member that must never lead
+				v = append(sortedIDs(n.Mem.NonVotings), sortedIDs(n.Mem.Witnesses)...)
+			}
 			if len(v) > 0 {
 				g.do(fmt.Sprintf("LT %d %d", id, v[r.Intn(len(v))]))
 			}
